@@ -31,6 +31,50 @@ class _H(ConvergenceController):
         return {'control_order': 7, 'knob': 'default', 'other': 'default', **super().setup(controller, params, description, **kw)}
 
 
+CALLLOG = []
+CALLBACKS = ('reset_buffers_nonMPI', 'setup_status_variables', 'reset_status_variables', 'pre_iteration_processing', 'post_iteration_processing', 'check_iteration_status',
+             'get_new_step_size', 'determine_restart', 'post_step_processing', 'prepare_next_block', 'post_spread_processing', 'post_run_processing')
+
+
+def _logged(nm):
+    def method(self, *a, **k):
+        CALLLOG.append((nm, type(self).__name__, self.params.control_order))
+        return getattr(super(_H, self), nm)(*a, **k)
+
+    method.__name__ = nm
+    return method
+
+
+for _nm in CALLBACKS:  # every callback of the harness controllers records that it was called (and then does what the base class does)
+    if hasattr(ConvergenceController, _nm):
+        setattr(_H, _nm, _logged(_nm))
+
+
+def call_rounds(log):
+    """the calls of one callback kind come in rounds (one call per controller): list of rounds [(callback, class name, control order), ...]"""
+    out, seg = [], []
+
+    def close():
+        rnd, seen = [], set()
+        for ev in seg + [None]:
+            if ev is None or ev[1] in seen:
+                if len(rnd) > 1:
+                    out.append(rnd)
+                rnd, seen = [], set()
+            if ev is not None:
+                rnd.append(ev)
+                seen.add(ev[1])
+
+    for ev in log:
+        if seg and seg[-1][0] != ev[0]:
+            close()
+            seg = []
+        seg.append(ev)
+    if seg:
+        close()
+    return out
+
+
 class H1(_H):
     def dependencies(self, controller, description, **kw):
         # depends on H2 (which the user may also have listed): must not be instantiated twice
@@ -119,7 +163,17 @@ def orders_case(rep, n):
         ctl = controller_nonMPI(2, dict(CP), d)
         ccs = ctl.convergence_controllers
         seq = [ccs[i] for i in ctl.convergence_controller_order]
-        return dict(created=list(CREATED), names=[type(x).__name__ for x in seq], orders=[I(x.params.control_order) for x in seq],
+        # the order in which the callbacks are REALLY invoked during a short run (two steps, a few iterations)
+        CALLLOG.clear()
+        P = ctl.MS[0].levels[0].prob
+        ctl.run(P.u_exact(0), 0.0, 0.2)
+        seen_, rounds = set(), []
+        for rnd in call_rounds(list(CALLLOG)):
+            key = (rnd[0][0], tuple(x[1] for x in rnd))
+            if key not in seen_:
+                seen_.add(key)
+                rounds.append([(x[0], x[1], I(x[2])) for x in rnd])
+        return dict(rounds=rounds, created=list(CREATED), names=[type(x).__name__ for x in seq], orders=[I(x.params.control_order) for x in seq],
                     knobs={type(x).__name__: (x.params.knob, x.params.other) for x in ccs if isinstance(x, _H)},
                     n_all=len(ccs), kinds=len({type(x) for x in ccs}))
 
@@ -143,6 +197,20 @@ def orders_case(rep, n):
                               {'task': ['orders', n], 'orders': vals, 'observed': got})
             else:
                 rep.unreproduced(f'{name}/path{i}', vals)
+        # every callback kind visits the controllers in ascending control order (all rounds of the run, decided under the path condition)
+        rgoal = z3.And([rnd[j][2] <= rnd[j + 1][2] for rnd in r['rounds'] for j in range(len(rnd) - 1)] + [z3.BoolVal(True)])
+        res2, m2 = prove(rgoal, pre + list(p.pc), name=f'{name}/path{i}:callbacks-ascending')
+        rep.ob(f'{name}/path{i}:every-callback-visits-the-controllers-in-ascending-order', res2)
+        rep.vac(f'{name}/path{i}:callback-rounds-observed', 'sat' if len({x[0][0] for x in r['rounds']}) >= 4 else 'unsat', 'sat')
+        if res2 == 'sat':
+            vals = [int(model_value(m2, o)) for o in ov]
+            rep.replayed += 1
+            badr = real_callback_rounds(classes, vals)
+            if badr:
+                rep.violation(f'{PID}/convergence-controller-order/callback/{badr[0][0][0]}', f'control orders {vals}: callback {badr[0][0][0]} visits the controllers in the order {[(x[1], x[2]) for x in badr[0]]}',
+                              {'task': ['orders', n], 'orders': vals, 'callbacks': True, 'observed': [[list(x) for x in rnd] for rnd in badr[:3]]})
+            else:
+                rep.unreproduced(f'{name}/path{i}:callbacks', vals)
         rep.side(f'{name}/path{i}:instantiated-once', sorted(r['created']) == sorted(c.__name__ for c in classes) and r['n_all'] == r['kinds'], r['created'])
         rep.side(f'{name}/path{i}:user-params-override-defaults',
                  all(r['knobs'][c.__name__] == (f'user{j}', 'default') for j, c in enumerate(classes)), r['knobs'])
@@ -151,6 +219,17 @@ def orders_case(rep, n):
     rep.vac(f'{name}:several-orderings', 'sat' if len({tuple(p.result['names']) for p in paths}) >= 2 else 'unsat', 'sat')
     rep.sample({'case': name, 'paths': len(paths), 'orderings_seen': len({tuple(p.result['names']) for p in paths}),
                 'free_variables': 'control_order of each harness convergence controller'}, limit=4)
+
+
+def real_callback_rounds(classes, vals):
+    """rounds of callback invocations that are not ascending in control order, for concrete control orders (real run)"""
+    d = valid_desc()
+    d['convergence_controllers'] = {cls: {'control_order': vals[j]} for j, cls in enumerate(classes)}
+    ctl = controller_nonMPI(2, dict(CP), d)
+    CALLLOG.clear()
+    P = ctl.MS[0].levels[0].prob
+    ctl.run(P.u_exact(0), 0.0, 0.2)
+    return [rnd for rnd in call_rounds(list(CALLLOG)) if any(rnd[j][2] > rnd[j + 1][2] for j in range(len(rnd) - 1))]
 
 
 def _raises(fn, excs):
@@ -549,7 +628,35 @@ def transfer_entries_case(rep):
 
 def replay(path):
     logging.disable(logging.CRITICAL)
-    d = json.load(open(path))['replay']
-    print(d)
-    print('REPRODUCED')
-    return 1
+    full = json.load(open(path))
+    d = full['replay']
+    t = d.get('task') or []
+    if t and t[0] == 'orders' and d.get('callbacks'):
+        badr = real_callback_rounds([H1, H2, H3, H4][: t[1]], d['orders'])
+        print('rounds of callbacks that are not ascending in control order:', badr[:3])
+        bad = bool(badr)
+    elif t and t[0] == 'orders':
+        dd = valid_desc()
+        dd['convergence_controllers'] = {cls: {'control_order': d['orders'][j]} for j, cls in enumerate([H1, H2, H3, H4][: t[1]])}
+        ctl = controller_nonMPI(2, dict(CP), dd)
+        got = [ctl.convergence_controllers[j].params.control_order for j in ctl.convergence_controller_order]
+        print('execution order', got)
+        bad = got != sorted(got)
+    else:
+        # re-execute the whole case on the real code and report whether the same finding comes back
+        from symx.report import Report
+
+        rep = Report(PID, 'other', 'quick', 0)
+        task = tuple(t) if t else None
+        key = full.get('key') or d.get('key')
+        try:
+            for tk in ([task] if task and task[0] in ('dict', 'orders', 'reject', 'frozen', 'levels', 'transfer_entries') else [('reject',), ('frozen',), ('levels',), ('transfer_entries',)]):
+                run_task(rep, tk)
+        except Exception as e:
+            print('re-execution raised', type(e).__name__, e)
+        same = [v for v in rep.violations if key is None or v.get('key') == key]
+        for v in same[:3]:
+            print('violation:', str(v.get('what'))[:300])
+        bad = bool(same)
+    print('REPRODUCED' if bad else 'not reproduced')
+    return 1 if bad else 0
